@@ -15,25 +15,25 @@ CPP_RUNTIME_NAMES = frozenset(
 )
 
 
-def check_cpp_names(nodes, _included=None):
+def check_cpp_names(nodes, _included=None, generated=None):
     """
     Names the generated C++ resolves in its own scopes first: a schema name equal to one of them compiles and then means
     something else (another array extent in encode, another field type, another enumerator in print). A member named like a
     type of its own struct (or like the struct) changes the meaning of that name in the C++ class scope.
-    Each included file is walked once.
+    Each included file is walked once. `generated` matches the names a generator invents inside the classes it writes.
     """
     _included = set() if _included is None else _included
     for node in nodes:
         if isinstance(node, model.Include):
             if node.name not in _included:
                 _included.add(node.name)
-                check_cpp_names(node.members, _included)
+                check_cpp_names(node.members, _included, generated)
             continue
         names = [node.name]
         if isinstance(node, model.Enum):
             names += [member.name for member in node.members]
         for name in names:
-            if name in CPP_RUNTIME_NAMES:
+            if name in CPP_RUNTIME_NAMES or generated and re.match(generated, name):
                 raise GenerateError("'{}' is a name of the C++ runtime: the generated C++ would not mean the schema".format(name))
         if isinstance(node, (model.Struct, model.Union)):
             types = set(member.type_name for member in node.members) | set([node.name])
